@@ -1157,6 +1157,13 @@ class Engine:
             if x is not NotImplemented:
                 return x
         tt = t_or(l.taint, r.taint)
+        if self.c.get('numeric_objects') and isinstance(op, (ast.Mult, ast.Div, ast.Add, ast.Sub)):
+            # contract option: an untyped object that meets a number in arithmetic is the number it stands for (as_real), so that
+            # clauses about such expressions are about values, not about how the expression is spelled
+            if isinstance(l, Obj) and l.cls is None and isinstance(r, Num):
+                l = Num(self.uf('as_real', V, R)(l.t), npy=True, taint=l.taint, ghost=l.ghost)
+            elif isinstance(r, Obj) and r.cls is None and isinstance(l, Num):
+                r = Num(self.uf('as_real', V, R)(r.t), npy=True, taint=r.taint, ghost=r.ghost)
         if isinstance(l, Num) and isinstance(r, Num):
             npy = l.npy or r.npy
             both_int = l.is_int and r.is_int
@@ -1622,6 +1629,10 @@ class Engine:
     def builtin(self, st, name, recv, args, kw, node):
         tt = t_or(*[v.taint for v in ([recv] if recv is not None else []) + list(args) + list(kw.values())])
         if recv is None:
+            if name == 'as_real' and len(args) == 1 and self.in_spec():
+                # spec function: the number a numeric object stands for (the same conversion a local typed 'real' gets)
+                a = args[0]
+                return a if isinstance(a, Num) else Num(self.uf('as_real', V, R)(self.to_V(a)), npy=True, taint=tt)
             if name == 'implies' and len(args) == 2:
                 return BoolV(z3.Implies(self.truth(st, args[0]), self.truth(st, args[1])))
             if name == 'halfpow' and len(args) == 1 and isinstance(args[0], Num):
